@@ -56,9 +56,9 @@ def struct_case(draw):
     names = list(members)
     for _ in range(draw(st.integers(1, 30))):
         kind = draw(st.sampled_from(['change-struct', 'change-member', 'read-struct', 'read-member', 'drv-write-struct', 'drv-write-member',
-                                     'drv-assign', 'hw-change']))
+                                     'drv-assign', 'hw-change', 'drv-assign-struct', 'drv-assign-member']))
         mname = draw(st.sampled_from(names))
-        if kind in ('change-struct', 'drv-write-struct'):
+        if kind in ('change-struct', 'drv-write-struct', 'drv-assign-struct'):
             val = {k: draw(member_values(t)) for k, t in members.items()}
             ops.append({'op': kind, 'value': val})
         elif kind == 'drv-assign':
@@ -66,7 +66,7 @@ def struct_case(draw):
                 ops.append({'op': kind, 'value': {k: draw(member_values(t)) for k, t in members.items()}})
             else:
                 ops.append({'op': kind, 'member': mname, 'value': draw(member_values(members[mname]))})
-        elif kind in ('change-member', 'drv-write-member', 'hw-change'):
+        elif kind in ('change-member', 'drv-write-member', 'hw-change', 'drv-assign-member'):
             ops.append({'op': kind, 'member': mname, 'value': draw(member_values(members[mname]))})
         else:
             ops.append({'op': kind, 'member': mname})
@@ -150,6 +150,12 @@ def check_struct(ctx, case):
                 else:
                     setattr(mobj, pnames[op['member']], op['value'])
                     touched_member = True
+            elif k == 'drv-assign-struct':     # the driver updates the struct by assignment, whatever the layout
+                mobj.st = op['value']
+                touched_struct = True
+            elif k == 'drv-assign-member':     # ... or one member
+                setattr(mobj, pnames[op['member']], op['value'])
+                touched_member = True
             elif k == 'hw-change':
                 hw[op['member']] = op['value']
                 if layout == 'combined' or layout == 'none':
@@ -229,7 +235,7 @@ def floatenum_case(draw):
         idx += 1
     ops = []
     for _ in range(draw(st.integers(1, 25))):
-        kind = draw(st.sampled_from(['change-float', 'change-float', 'change-idx', 'drv-write-idx', 'drv-assign-idx', 'read']))
+        kind = draw(st.sampled_from(['change-float', 'change-float', 'change-idx', 'drv-write-idx', 'drv-assign-idx', 'read', 'drv-assign-float']))
         if kind == 'change-float':
             ops.append({'op': kind, 'x': draw(st.sampled_from([0.0, 1e-6, 6e-5, 0.0102, 0.5, 0.6, 1.0, 2.0, 19.0, 600.0, 1e4, -1.0, 0.0055, 3.3e-3]))})
         elif kind == 'read':
@@ -322,6 +328,10 @@ def check_floatenum(ctx, case):
             if op['i'] in vdict:
                 mobj.fr_idx = op['i']
                 did_idx = True
+        elif k == 'drv-assign-float':
+            # the driver updates the float parameter with one of the allowed values (e.g. read back from the hardware)
+            mobj.fr = sorted(vdict.values())[op['i'] % len(vdict)]
+            did_float = True
         else:
             kit.request(conn, ('read', 'f:_fr', None))
         idx = int(mobj.fr_idx)
